@@ -1,10 +1,26 @@
 """Build configurations and per-property check specifications for vcheck."""
 
-LIBS_SCALAR = ["varintTagged.c", "varintExternal.c", "varintExternalBigEndian.c", "varintChained.c",
-               "varintChainedSimple.c", "varintElias.c"]
-LIBS_ARRAY = ["varintDelta.c", "varintFOR.c", "varintPFOR.c", "varintGroup.c", "varintDict.c", "varintRLE.c",
-              "varintElias.c", "varintBP128.c", "varintAdaptive.c", "varintBitmap.c", "varintFloat.c"]
-LIBS_ALL = LIBS_SCALAR + [x for x in LIBS_ARRAY if x not in LIBS_SCALAR]
+import os as _os
+
+_SRC = _os.path.join(_os.environ.get("VARINT_REPO", "/repo"), "src")
+
+
+def _discover_libs():
+    """Every library translation unit of /repo/src as it is now (test drivers and the benchmark excluded), so that a
+    change that adds or splits a source file still links."""
+    out = []
+    try:
+        for fn in sorted(_os.listdir(_SRC)):
+            if fn.endswith(".c") and not fn.endswith("Test.c") and fn not in ("varintCompare.c",):
+                out.append(fn)
+    except OSError:
+        pass
+    return out
+
+
+LIBS_ALL = _discover_libs()
+LIBS_SCALAR = LIBS_ALL
+LIBS_ARRAY = LIBS_ALL
 
 ASAN_ENV = {"ASAN_OPTIONS": "handle_segv=0:handle_sigbus=0:handle_abort=0:handle_sigfpe=0:allow_user_segv_handler=1:"
                             "detect_leaks=0:halt_on_error=0:detect_stack_use_after_return=0:print_summary=0:"
@@ -146,7 +162,7 @@ arrays("C06", "E-enum: adaptive auto-selection and every forced encoding whose d
        "; class = (selected encoding, decision-tree path signature)")
 
 CHECKS["C08"] = dict(
-    name="bitmap_bfs", harness=["checks/bitmap_bfs.c"], libs=["varintBitmap.c", "varintExternal.c"], engine="E-bfs",
+    name="bitmap_bfs", harness=["checks/bitmap_bfs.c"], libs=LIBS_ALL, engine="E-bfs",
     configs={"quick": ["pinned", "asan"], "thorough": ["pinned", "asan", "debug"]},
     shards={"pinned": 16, "asan": 16, "debug": 16},
     deadline={"quick": 150, "thorough": 2400},
@@ -167,7 +183,7 @@ CHECKS["C08"] = dict(
 
 CHECKS["C14"] = dict(
     name="c14", harness=["checks/c14.c", "engine/vmalloc.c"], wrap_malloc=True,
-    libs=["varintTagged.c", "varintExternal.c", "varintDict.c", "varintElias.c", "varintBitmap.c", "varintRLE.c"],
+    libs=LIBS_ALL,
     configs={"quick": ["pinned", "asan"], "thorough": ["pinned", "asan", "debug"]},
     shards={"pinned": 16, "asan": 16, "debug": 16},
     deadline={"quick": 150, "thorough": 1800},
@@ -186,7 +202,7 @@ CHECKS["C14"] = dict(
 )
 
 CHECKS["C09"] = dict(
-    name="packed", harness=["checks/packed.c"], libs=[], engine="E-enum + E-bfs",
+    name="packed", harness=["checks/packed.c"], libs=LIBS_ALL, engine="E-enum + E-bfs",
     configs={"quick": ["pinned", "debug"], "thorough": ["pinned", "debug", "asan"]},
     shards={"pinned": 16, "debug": 16, "asan": 16},
     deadline={"quick": 150, "thorough": 1500},
@@ -205,7 +221,7 @@ CHECKS["C09"] = dict(
 )
 
 CHECKS["C11"] = dict(
-    name="bitstream", harness=["checks/bitstream.c", "checks/bitstream32.c"], libs=[],
+    name="bitstream", harness=["checks/bitstream.c", "checks/bitstream32.c"], libs=LIBS_ALL,
     configs={"quick": ["pinned", "debug"], "thorough": ["pinned", "debug", "asan"]},
     shards={"pinned": 16, "debug": 16, "asan": 16},
     deadline={"quick": 120, "thorough": 1200},
@@ -220,7 +236,7 @@ CHECKS["C11"] = dict(
 )
 
 CHECKS["C10"] = dict(
-    name="dimension", harness=["checks/dimension.c"], libs=["varintDimension.c", "varintExternal.c", "varintTagged.c"],
+    name="dimension", harness=["checks/dimension.c"], libs=LIBS_ALL,
     engine="E-enum + E-bfs",
     configs={"quick": ["pinned", "native"], "thorough": ["pinned", "native", "debug", "asan"]},
     shards={"pinned": 16, "native": 16, "debug": 16, "asan": 16},
@@ -241,7 +257,7 @@ CHECKS["C10"] = dict(
 
 CHECKS["C07"] = dict(
     name="floatc", harness=["checks/floatc.c", "engine/vmalloc.c"], wrap_malloc=True,
-    libs=["varintFloat.c", "varintExternal.c"],
+    libs=LIBS_ALL,
     configs={"quick": ["pinned", "debug"], "thorough": ["pinned", "debug", "asan"]},
     shards={"pinned": 16, "debug": 16, "asan": 16},
     deadline={"quick": 150, "thorough": 1500},
@@ -260,8 +276,7 @@ CHECKS["C07"] = dict(
 
 CHECKS["C18"] = dict(
     name="c18", harness=["checks/c18.c", "engine/vmalloc.c"], wrap_malloc=True, engine="E-fault", count_alloc_sites=True,
-    libs=["varintDict.c", "varintPFOR.c", "varintFloat.c", "varintAdaptive.c", "varintBitmap.c", "varintTagged.c",
-          "varintExternal.c", "varintDelta.c", "varintFOR.c"],
+    libs=LIBS_ALL,
     configs={"quick": ["pinned"], "thorough": ["pinned", "debug"]},
     shards={"pinned": 16, "debug": 16},
     deadline={"quick": 150, "thorough": 2400},
@@ -282,7 +297,7 @@ CHECKS["C18"] = dict(
 
 CHECKS["C15"] = dict(
     name="c15", harness=["checks/c15.c", "engine/vmalloc.c"], wrap_malloc=True, engine="E-hist",
-    libs=LIBS_ALL + ["varintDimension.c"],
+    libs=LIBS_ALL,
     configs={"quick": ["pinned", "msan"], "thorough": ["pinned", "debug", "msan"]},
     shards={"pinned": 16, "debug": 16, "msan": 16},
     deadline={"quick": 150, "thorough": 1800},
